@@ -27,6 +27,9 @@ reason is recorded in `Expect.cls`; the list is short and explicit:
    If-Range date later than L-M ...... 206 or 200 (strictly: 200)          [13.1.5]
    If-Range neither tag nor date ..... 206 or 200
    HEAD with Range ................... with or without range handling       [14.2]
+   If-Match / If-None-Match list with malformed elements: the field is present, so it is never treated as
+   absent; it may be read as "nothing usable" (If-Match false -> 412, If-None-Match true -> go on, with
+   If-Modified-Since ignored) or as the list of its well-formed members   [13.1.1, 13.1.2, 13.2.2]
 """
 from __future__ import annotations
 
@@ -287,10 +290,11 @@ class Expect:
     """outcomes: acceptable answers; cls: full description of the case (for
     messages); key_cls: the one fact that decided the expectation (for keys)."""
 
-    __slots__ = ("outcomes", "cls", "key_cls")
+    __slots__ = ("outcomes", "cls", "key_cls", "alts")
 
     def __init__(self, outcomes, cls, key_cls=None):
         self.outcomes, self.cls = outcomes, cls
+        self.alts = None      # several readings of the request (malformed entity-tag lists): one Expect per reading
         self.key_cls = key_cls if key_cls is not None else cls
 
     def __repr__(self):
@@ -332,28 +336,126 @@ def _hdr(headers, name):
     return None
 
 
+def scan_etag_field(v: str | None):
+    """Tolerant reading of an If-Match / If-None-Match field value.
+
+    None (field absent or empty) | "*" | (members, malformed): `members` are the well-formed entity-tags
+    (weak, opaque) found between the list separators, `malformed` says whether anything else - an unquoted
+    tag, "W/x", an unterminated quote, text after a closing quote - occurs in the value.  Empty list
+    elements are skipped and are not malformed (RFC 9110 5.6.1.2).  Unlike `parse_etag_list` a comma
+    inside the quotes belongs to the opaque tag (etagc includes %x2C)."""
+    r = _scan_etag_field(v)
+    return r if r is None or r == "*" else r[:2]
+
+
+def etag_field_empty_elements(v: str | None) -> int:
+    """Number of empty list elements before a well-formed or malformed element ('"a",,"b"', ', "a"'); a
+    recipient MUST parse and ignore them (RFC 9110 5.6.1.2).  A trailing comma is not counted."""
+    r = _scan_etag_field(v)
+    return 0 if r is None or r == "*" else r[2]
+
+
+def _scan_etag_field(v):
+    if v is None:
+        return None
+    v = v.strip(" \t")
+    if v == "":
+        return None
+    if v == "*":
+        return "*"
+    members, malformed, empties = [], False, 0
+    i, n = 0, len(v)
+    while i < n:
+        while i < n and v[i] in " \t":
+            i += 1
+        if i >= n:
+            break
+        if v[i] == ",":
+            i += 1
+            empties += 1
+            continue
+        m = _ETAG.match(v, i)
+        if m:
+            j = m.end()
+            while j < n and v[j] in " \t":
+                j += 1
+            if j >= n or v[j] == ",":
+                members.append((bool(m.group(1)), m.group(2)))
+                i = j + 1
+                continue
+        malformed = True
+        j = v.find(",", i)
+        i = n if j < 0 else j + 1
+    return members, malformed, empties
+
+
+def _tag_readings(field):
+    """The defensible readings of a scanned entity-tag field, each None (absent) | "*" | list of members.
+
+    RFC 9110 13.1.1 / 13.1.2: the condition is decided by "*", else by a list of entity-tags, and
+    "otherwise" - a present field that is neither - If-Match is false and If-None-Match is true; that is
+    the reading [] (present, matches nothing).  A field that is present is never read as absent.  For a
+    list with malformed elements a recipient may also have kept the well-formed members."""
+    if field is None or field == "*":
+        return [field]
+    members, malformed = field
+    if not malformed:
+        return [members]
+    return [[], members] if members else [[]]
+
+
 def evaluate(method: str, headers, size: int, last_modified: int, etag: str) -> Expect:
     """Acceptable outcomes for GET/HEAD on a representation of `size` bytes
     with validators (`last_modified` in whole seconds, strong `etag` opaque
-    value without quotes).  Order of evaluation: RFC 9110 13.2.2."""
-    im = parse_etag_list(_hdr(headers, "If-Match"))
+    value without quotes).  Order of evaluation: RFC 9110 13.2.2.
+
+    An If-Match / If-None-Match value with malformed elements has more than one reading
+    (`_tag_readings`); the acceptable outcomes are the union over the readings."""
+    imf = scan_etag_field(_hdr(headers, "If-Match"))
+    inmf = scan_etag_field(_hdr(headers, "If-None-Match"))
+    bad = [n for n, f in (("if_match", imf), ("if_none_match", inmf)) if isinstance(f, tuple) and f[1]]
+    empties = any(etag_field_empty_elements(_hdr(headers, n)) for n in ("If-Match", "If-None-Match"))
+    alts = []
+    for im in _tag_readings(imf):
+        for inm in _tag_readings(inmf):
+            e = _evaluate(method, headers, size, last_modified, etag, im, inm)
+            cls, kcls = e.cls, e.key_cls
+            if bad:
+                cls = "malformed_" + "+".join(bad) + ":" + cls
+                if kcls == "if_match_false":
+                    kcls = "if_match_malformed"
+            if empties:
+                # empty list elements, which a recipient must skip, are not malformed: judged strictly, own class
+                cls, kcls = "empty_list_element:" + cls, kcls + ":empty_list_element"
+            alts.append(Expect(e.outcomes, cls, kcls))
+    exp = alts[0]
+    if len(alts) > 1:
+        outs = []
+        for e in alts:
+            outs = _merge(outs, e.outcomes)
+        # the first reading (nothing usable in the field) names the class of the union
+        exp = Expect(outs, "|".join(e.cls for e in alts), alts[0].key_cls)
+        exp.alts = alts
+    return exp
+
+
+def _evaluate(method: str, headers, size: int, last_modified: int, etag: str, im, inm) -> Expect:
     ius = parse_http_date(_hdr(headers, "If-Unmodified-Since"))
-    inm = parse_etag_list(_hdr(headers, "If-None-Match"))
     ims = parse_http_date(_hdr(headers, "If-Modified-Since"))
     # step 1/2
-    if im is not None and im != "invalid":
+    if im is not None:
         ok = im == "*" or any((not w) and t == etag for w, t in im)     # strong comparison
         if not ok:
             return Expect([Outcome("precondition_failed")], "if_match_false")
-    elif im is None and ius is not None:
+    elif ius is not None:
         if not last_modified <= ius:
             return Expect([Outcome("precondition_failed")], "if_unmodified_since_false")
     # step 3/4
-    if inm is not None and inm != "invalid":
+    if inm is not None:
         hit = inm == "*" or any(t == etag for _w, t in inm)            # weak comparison
         if hit:
             return Expect([Outcome("not_modified")], "if_none_match_false")
-    elif inm is None and ims is not None:
+    elif ims is not None:
         if last_modified <= ims:
             return Expect([Outcome("not_modified")], "if_modified_since_false")
     # step 5
@@ -405,6 +507,23 @@ _CR_UNSAT = re.compile(r"bytes \*/(\d+)")
 
 def check_response(exp: Expect, method: str, status: int, headers, body: bytes, complete: bool,
                    data: bytes, prefix_ok: bool = False):
+    """`_check_response` for every reading of the request: the response must be right under one of them.  When
+    it is right under none, the complaint is made under the reading the server evidently took: for a 304/412
+    the first one, otherwise the first reading under which the preconditions let the request through (if any)."""
+    if not exp.alts:
+        return _check_response(exp, method, status, headers, body, complete, data, prefix_ok)
+    res = [_check_response(e, method, status, headers, body, complete, data, prefix_ok) for e in exp.alts]
+    if any(not r for r in res):
+        return []
+    if status not in (304, 412):
+        for e, r in zip(exp.alts, res):
+            if not {o.kind for o in e.outcomes} <= {"not_modified", "precondition_failed"}:
+                return r
+    return res[0]
+
+
+def _check_response(exp: Expect, method: str, status: int, headers, body: bytes, complete: bool,
+                    data: bytes, prefix_ok: bool = False):
     """Compare one response with the expectation for the representation `data`.
 
     Returns a list of (invariant, key, message).  `complete` False means the
@@ -621,6 +740,27 @@ def oracle_selftest():
     assert E([("If-Modified-Since", "garbage")]) == [O("full")]
     assert E([("If-Match", '"x"'), ("If-None-Match", '"tag"')]) == [O("precondition_failed")]
     assert E([("If-None-Match", "*"), ("Range", "bytes=0-1")]) == [O("not_modified")]
+    # present but malformed entity-tag fields (13.1.1 / 13.1.2 "otherwise"): If-Match false, If-None-Match true
+    S = scan_etag_field
+    assert S(None) is None and S(" ") is None and S("*") == "*" and S('"a", W/"b"') == ([(False, "a"), (True, "b")], False)
+    assert S("tag") == ([], True) and S("W/tag") == ([], True) and S('"tag') == ([], True) and S('"a"x, "b"') == ([(False, "b")], True)
+    assert S('"a,b"') == ([(False, "a,b")], False) and S(', "a",,') == ([(False, "a")], False) and S('"a" "b"') == ([], True)
+    PF, NM, FU = O("precondition_failed"), O("not_modified"), O("full")
+    assert E([("If-Match", "tag")]) == [PF] and E([("If-Match", "W/tag")]) == [PF] and E([("If-Match", '"tag')]) == [PF]
+    assert E([("If-Match", 'x, "nomatch"')]) == [PF] and E([("If-Match", ",")]) == [PF]
+    assert E([("If-Match", '"tag", x')]) == [PF, FU] and E([("If-Match", 'x, "tag"')]) == [PF, FU]
+    assert E([("If-Match", "tag"), ("If-Unmodified-Since", D(lm))]) == [PF]                  # a present If-Match is never 'absent'
+    assert E([("If-Match", "tag"), ("Range", "bytes=2-3")]) == [PF]
+    assert E([("If-None-Match", "tag")]) == [FU] and E([("If-None-Match", "tag"), ("If-Modified-Since", D(lm))]) == [FU]
+    assert E([("If-None-Match", 'x, "nomatch"'), ("If-Modified-Since", D(lm + 1))]) == [FU]
+    assert E([("If-None-Match", 'x, W/"tag"'), ("If-Modified-Since", D(lm))]) == [FU, NM]
+    assert E([("If-None-Match", '"tag')] + [("Range", "bytes=2-3")]) == [O("partial", 2, 4)]
+    assert evaluate("GET", [("If-Match", "tag")], 10, lm, "tag").key_cls == "if_match_malformed"
+    assert etag_field_empty_elements(', "a"') == 1 and etag_field_empty_elements('"a",, "b",') == 1 and etag_field_empty_elements('"a", "b",') == 0
+    assert E([("If-Match", ', "tag"')]) == [FU] and E([("If-None-Match", '"x",,W/"tag"')]) == [NM] and E([("If-Match", ', "x"')]) == [PF]
+    assert evaluate("GET", [("If-None-Match", ', "tag"')], 10, lm, "tag").key_cls == "if_none_match_false:empty_list_element"
+    assert evaluate("GET", [("If-None-Match", ', tag')], 10, lm, "tag").key_cls == "no_range:empty_list_element"
+    assert evaluate("GET", [("If-Match", '"x"')], 10, lm, "tag").key_cls == "if_match_false"
     assert E([("Range", "bytes=2-3")]) == [O("partial", 2, 4)]
     assert E([("Range", "bytes=2-3"), ("If-Range", '"tag"')]) == [O("partial", 2, 4)]
     assert E([("Range", "bytes=2-3"), ("If-Range", '"old"')]) == [O("full")]
